@@ -21,7 +21,7 @@ pub fn e2_components() -> Value {
             "notify back-ends and the filesystem (SimWatcher through hook H3: records watch/unwatch, injects failures, keeps the real event-handler closure and fires Ok/Err into it)",
             "OS signal delivery and the stdin reader thread (H4: the sources' own send_event is called directly)",
             "child processes (SimChild, hook H2)",
-            "the event filter (SimFilterer: scripted verdict per event id) and the user handlers (scripted)",
+            "the event filter (SimFilterer: scripted verdict per event id and per filterer generation; replaced at run time through Config::filterer in the filter-replaced family) and the user handlers (scripted)",
             "wall clock (virtual; hook H1 makes throttle_collect read tokio's clock)"
         ]
     })
@@ -58,6 +58,8 @@ pub struct D2 {
     pub send_hung: Vec<u32>,
     pub throttle_changes: Vec<(u64, u64, u32)>,
     pub over_seq: u32,
+    /// seq of every run-time replacement of the filterer
+    pub filter_replaced: Vec<u32>,
 }
 
 pub fn digest2(out: &RunOut) -> D2 {
@@ -73,6 +75,7 @@ pub fn digest2(out: &RunOut) -> D2 {
             Ev::EvSent { id, ok } => d.sent.entry(*id).or_default().push((r.t, r.seq, *ok)),
             Ev::EvTrySend { id, ok } => d.trysent.entry(*id).or_default().push((r.t, r.seq, *ok)),
             Ev::Filter { id, verdict } => d.filter.entry(*id).or_default().push((r.t, r.seq, *verdict)),
+            Ev::CfgChange { what, .. } if what == "ReplaceFilterer" => d.filter_replaced.push(r.seq),
             Ev::Batch { ids, .. } => d.batches.push((r.t, r.seq, ids.clone())),
             Ev::BatchEnd { .. } => d.batch_end.push((r.t, r.seq)),
             Ev::RtErr { msg, .. } => d.errs.push((r.t, r.seq, msg.clone())),
@@ -162,7 +165,23 @@ pub fn oracle_c01(scn: &E2Scn, d: &D2, stats: &mut Stats) -> Vec<Violation> {
         let urgent = prio == 3;
         let empty = scn.producers.iter().flatten().any(|s| matches!(s.kind, PKind::Send { id: i, empty: true, .. } if i == *id));
         let verdict = scn.verdict(*id);
-        let must = urgent || empty || verdict == 0;
+        let flips = scn.flip_ids.contains(id) && !urgent && !empty;
+        // an event whose verdict depends on the filterer in place: each accepted occurrence is owed (or not) according to
+        // the filterer installed when it entered the queue (the scenarios keep replacements and sends seconds apart)
+        let owed_n = if flips {
+            stats.hit("probe:verdict-changed-by-filterer-replacement");
+            let mut n = 0;
+            for (_, seq, ok) in d.sent.get(id).into_iter().flatten() {
+                if *ok && *seq < stop_seq && d.filter_replaced.iter().filter(|r| **r < *seq).count() % 2 == 1 {
+                    n += 1;
+                }
+            }
+            n
+        } else {
+            *n_acc
+        };
+        let n_acc = &owed_n;
+        let must = urgent || empty || (verdict == 0 && !flips) || (flips && owed_n > 0);
         let got = occ.get(id).copied().unwrap_or(0);
         if must {
             // events still in flight when a quit / escalation ends the run early are not owed
@@ -170,7 +189,7 @@ pub fn oracle_c01(scn: &E2Scn, d: &D2, stats: &mut Stats) -> Vec<Violation> {
             if got < *n_acc && owed {
                 vs.push(Violation::new(
                     "accepted-event-lost",
-                    &format!("prio={prio} empty={empty}"),
+                    &format!("prio={prio} empty={empty}{}", if flips { " after-filterer-replacement" } else { "" }),
                     format!("event {id} (priority {prio}, verdict {verdict}, empty {empty}) was accepted {n_acc}x but appeared in {got} batch(es)"),
                 ));
             } else if got > *n_acc {
@@ -497,6 +516,56 @@ pub fn gen_events(rng: &mut Rng, faults: bool) -> E2Scn {
 }
 
 /// `stalls`: slow-node faults (slow error handler, slow filter); not for checks with exact timing bounds
+/// The filterer is replaced at run time (`Config::filterer`), which changes the verdict for some events; the very same
+/// events (same tags, metadata and priority) are sent before and after, seconds apart from the replacement.
+pub fn gen_filter_replaced(rng: &mut Rng) -> E2Scn {
+    let throttle = *rng.pick(&[0u64, 10, 50, 50]);
+    let n_ids = rng.range(1, 4) as u32;
+    let ids: Vec<(u32, u8)> = (0..n_ids).map(|i| (10 + i, *rng.pick(&[0u8, 1, 1, 2]))).collect();
+    let mut steps: Vec<PStep> = Vec::new();
+    let mut verdicts = Vec::new();
+    // optionally something ordinary first, so that the worker has been through a full cycle
+    if rng.chance(1, 2) {
+        steps.push(PStep { gap: 100, kind: PKind::Send { id: 50, prio: 1, empty: false } });
+        steps.push(PStep { gap: 3000, kind: PKind::Send { id: 51, prio: 1, empty: false } });
+        verdicts.push((51, 1));
+    }
+    let phases = rng.range(2, 4);
+    for ph in 0..phases {
+        if ph > 0 {
+            steps.push(PStep { gap: 5000, kind: PKind::ReplaceFilterer });
+        }
+        let mut order = ids.clone();
+        if rng.chance(1, 2) {
+            order.reverse();
+        }
+        for (k, (id, prio)) in order.iter().enumerate() {
+            let gap = if k == 0 { 5000 } else { *rng.pick(&[0u64, 1, throttle / 2, throttle + 1]) };
+            steps.push(PStep { gap, kind: PKind::Send { id: *id, prio: *prio, empty: false } });
+            if rng.chance(1, 4) {
+                // an immediate repeat of the same event
+                steps.push(PStep { gap: *rng.pick(&[0u64, 1]), kind: PKind::Send { id: *id, prio: *prio, empty: false } });
+            }
+        }
+        if rng.chance(1, 3) {
+            // a different event that is always rejected, between the phases
+            steps.push(PStep { gap: 1, kind: PKind::Send { id: 60 + ph as u32, prio: 1, empty: false } });
+            verdicts.push((60 + ph as u32, 1));
+        }
+    }
+    E2Scn {
+        family: "filter-replaced".into(),
+        throttle,
+        handler_async: rng.chance(1, 2),
+        handler_durs: vec![*rng.pick(&[0u64, 1, 20])],
+        producers: vec![steps],
+        verdicts,
+        flip_ids: ids.iter().map(|i| i.0).collect(),
+        probe: true,
+        ..Default::default()
+    }
+}
+
 pub fn gen_events_opt(rng: &mut Rng, faults: bool, stalls: bool) -> E2Scn {
     let throttle = *rng.pick(&[0u64, 1, 10, 50, 50]);
     let n_prod = rng.range(1, 4) as usize;
@@ -943,7 +1012,7 @@ e2_check!(
     "C01",
     200_000,
     40_000_000,
-    |rng: &mut Rng, idx: u64| if idx % 4 == 3 { gen_debounce(rng) } else { gen_events_opt(rng, idx % 2 == 1, true) },
+    |rng: &mut Rng, idx: u64| if idx % 4 == 3 { gen_debounce(rng) } else if idx % 16 == 6 { gen_filter_replaced(rng) } else { gen_events_opt(rng, idx % 2 == 1, true) },
     |scn: &E2Scn, d: &D2, _out: &RunOut, stats: &mut Stats| oracle_c01(scn, d, stats),
     vec![
         "probe:urgent-event",
@@ -955,7 +1024,8 @@ e2_check!(
         "probe:signal-event",
         "probe:keyboard-eof-event",
         "probe:fs-callback-event",
-        "probe:event-at-window-end-goes-to-next-batch"
+        "probe:event-at-window-end-goes-to-next-batch",
+        "probe:verdict-changed-by-filterer-replacement"
     ]
 );
 
@@ -1758,9 +1828,16 @@ impl Check for C08 {
     }
     fn generate(&self, rng: &mut Rng, idx: u64, _tier: Tier) -> Option<C08Scn> {
         Some(if idx % 5 == 4 {
-            let mut s = if idx % 10 == 9 { crate::p_e3::gen_cli_race(rng) } else { crate::p_e3::gen_cli(rng) };
+            let mapped = idx % 20 == 14;
+            let mut s = if idx % 10 == 9 {
+                crate::p_e3::gen_cli_race(rng)
+            } else if mapped {
+                crate::p_e3::gen_cli_mapped(rng)
+            } else {
+                crate::p_e3::gen_cli(rng)
+            };
             // vary the instant of the final signal: sometimes right in the middle of the action
-            if rng.chance(1, 2) {
+            if !mapped && rng.chance(1, 2) {
                 s.family = "cli-quit-early".into();
             }
             C08Scn::Cli(s)
